@@ -639,6 +639,7 @@ func computeSCEV(v ssa.Value, loop *Loop, depth int) SCEV {
 }
 
 func computeSCEVBody(v ssa.Value, loop *Loop, depth int) SCEV {
+	verifCountSCEV()
 	if c, ok := v.(*ssa.Const); ok {
 		return SCEVFromConst(c)
 	}
